@@ -10,6 +10,7 @@ import RxModel.Driver.SuiteMulti
 import RxModel.Driver.SuiteLocks
 import RxModel.Driver.SuiteComposite
 import RxModel.Driver.SuiteInject
+import RxModel.Driver.SuiteCoop
 /-
   rxdriver: reads the suite file on stdin, runs the model, prints one line per
   external event — the lines the harness prints for the real code.
@@ -71,6 +72,7 @@ def runCase (c : Case) : List String :=
   | "behaviorrace" => LocksS.runBehaviorRace c.id c.events
   | "composite" => CompS.runCompositeCase c.id c.field c.events
   | "inject" => InjectS.runInjectCase c.id c.events
+  | "coop" => CoopS.runCoopCase c.id c.field c.events
   | s => [s!"{c.id}.0 UNKNOWN-SUITE {s}"]
 
 partial def loop (h : IO.FS.Stream) (out : IO.FS.Stream) (cur : Case) : IO Unit := do
